@@ -134,7 +134,7 @@ def write_evidence(ctx, nviol, wall):
     # evidence describes /repo; a development run against another tree (REPO=..., mutants and seeded changes) or with a
     # restricted script family must not overwrite it
     evdir = os.path.join(VERIF, "evidence")
-    if os.path.realpath(REPO) != "/repo" or os.environ.get("VERIF_RPC_ONLY"):
+    if os.path.realpath(REPO) != "/repo" or os.environ.get("VERIF_RPC_ONLY") or os.environ.get("VERIF_NO_EVIDENCE"):
         evdir = os.path.join(os.environ.get("VERIF_TMP", "/tmp"), "verif-evidence-other-tree")
     os.makedirs(evdir, exist_ok=True)
     p = os.path.join(evdir, ctx.pid + ".json")
